@@ -180,6 +180,11 @@ where
     let executor = GemmExecutor::default();
     let tensor: TensorView<RhsT> = input.try_into().ok()?;
     let matrix: Matrix<RhsT> = tensor.try_into().ok()?;
+    if matrix.is_empty() {
+        // There is nothing to pack, and the packing code assumes non-zero
+        // block sizes.
+        return None;
+    }
     Some(executor.prepack_b(matrix).into())
 }
 
